@@ -450,7 +450,7 @@ fn gen_tearing(_t: Tier) -> Box<dyn Iterator<Item = Vec<u64>>> {
 pub fn property() -> Property {
     Property {
         id: "C06",
-        rule: "complete enumeration of (entry point x length 0..=24 x guest address mod 8 x local address mod 8) for 31 entry points that funnel into the byte-copy helper (buffer reads/writes at slice, region and guest level, 1-byte-element copies, in-memory stream adapters, object reads/writes of 1/2/4/8 bytes); oracle = trace of the primitive accesses the library requests (hook): length in {1,2,4,8} with both addresses aligned to it => exactly one access of that width; plus the atomic load/store API for every AtomicAccess type x offset mod 16 x level (misaligned refused, aligned round trip), random offsets, and a threaded tearing detector with a fixed iteration count; non-trivial = aligned power-of-two transfer (the rule bites), atomic API class, tearing run; distinct = (entry, len, guest mod 8, local mod 8)",
+        rule: "complete enumeration of (entry point x length 0..=24 x guest address mod 8 x local address mod 8) for 35 entry points that funnel into the byte-copy helper (buffer reads/writes at slice, region and guest level, 1-byte-element copies, in-memory stream adapters incl. nearly full Vec sinks through the write_all paths, object reads/writes of 1/2/4/8 bytes), region/guest-level entries additionally at the last possible position inside the region; oracle = trace of the primitive accesses the library requests (hook): length in {1,2,4,8} with both addresses aligned to it => exactly one access of that width; plus the atomic load/store API for every AtomicAccess type x offset mod 16 x level (misaligned refused, aligned round trip), random offsets, and a threaded tearing detector with a fixed iteration count; non-trivial = aligned power-of-two transfer (the rule bites), atomic API class, tearing run; distinct = (entry, len, guest mod 8, local mod 8)",
         assumptions: &["a naturally aligned volatile load/store of <= 8 bytes is a single machine access on the supported 64-bit targets", "the hook observes the accesses the library requests; a change inside one copy_single arm is visible only to the tearing detector", "guest regions start at multiples of 8 so guest and host alignment coincide"],
         subchecks: vec![
             SubCheck { name: "classes", builds: &[Build::Std, Build::Plain], kind: Kind::Exhaustive { gen: gen_classes }, run: run_class },
